@@ -17,8 +17,10 @@ ALPHABET = [
     'mov DWORD PTR [esi], eax', 'mov WORD PTR [esi+2], bx', 'mov BYTE PTR [esi+1], cl', 'mov eax, DWORD PTR [esi]', 'mov ax, WORD PTR [esi+3]',
     'mov dl, BYTE PTR [esi+5]', 'movzx eax, BYTE PTR [esi+1]', 'mov DWORD PTR [0x1000], eax', 'mov bx, WORD PTR [0x1002]',
     'mov BYTE PTR [esi], cl', 'mov DWORD PTR [esi+4], ebx', 'mov eax, DWORD PTR [esi+2]', 'stosd', 'lodsb', 'movsb',
+    # sub-register writes of a register holding a constant, under a symbolic flag (concatenation of constants and a conditional)
+    'mov eax, 0x11223344', 'test ecx, ecx', 'sete ah', 'setne bl', 'cmovz ax, bx', 'adc ah, 0',
 ]
-QUICK_ALPHABET = [0, 1, 3, 4, 11, 12, 13, 14, 15, 16, 17, 18, 19, 21, 22, 23, 24, 26]
+QUICK_ALPHABET = [0, 1, 3, 4, 11, 12, 13, 14, 15, 16, 17, 18, 19, 21, 22, 23, 24, 26, 30, 31, 32]
 BASES = {'esp': 0x00100000, 'esi': 0x00200000, 'edi': 0x00300000}
 GPR = ['eax', 'ebx', 'ecx', 'edx', 'esi', 'edi', 'esp', 'ebp']
 FLAGNAMES = ['zf', 'nf', 'pf', 'of', 'cf', 'af', 'df']
